@@ -290,6 +290,7 @@ func (r *recordIter) setIntColumnMeta(timeColVals *record.ColVal, idx int, rec *
 	lastIndex, firstIndex, minIndex, maxIndex = -1, -1, -1, -1
 	firstInit := false
 	var lastTime int64 // time of the last row that has a value in this column
+	lastRow := -1      // and its row (lastIndex counts values, the auxiliary columns are read by row)
 	for index, timeCol := range timeCols {
 		if colVals.IsNil(index) {
 			nilCount += 1
@@ -323,6 +324,7 @@ func (r *recordIter) setIntColumnMeta(timeColVals *record.ColVal, idx int, rec *
 
 		sumV += cols[index-nilCount]
 		lastIndex = colIndex
+		lastRow = index
 		lastTime = timeCol
 	}
 
@@ -332,7 +334,7 @@ func (r *recordIter) setIntColumnMeta(timeColVals *record.ColVal, idx int, rec *
 	rec.ColMeta[idx].SetCount(countV)
 	rec.ColMeta[idx].SetSum(sumV)
 
-	setColValInAux(timeColVals, idx, ops, rec, minIndex, firstIndex, maxIndex, lastIndex)
+	setColValInAux(timeColVals, idx, ops, rec, minIndex, firstIndex, maxIndex, lastRow)
 }
 
 func (r *recordIter) setBoolColumnMeta(timeColVals *record.ColVal, idx int, rec *record.Record, ops []*comm.CallOption) {
@@ -357,6 +359,7 @@ func (r *recordIter) setBoolColumnMeta(timeColVals *record.ColVal, idx int, rec 
 	colIndex = -1
 	firstInit := false
 	var lastTime int64 // time of the last row that has a value in this column
+	lastRow := -1      // and its row (lastIndex counts values, the auxiliary columns are read by row)
 	for index, timeCol := range timeCols {
 		if colVals.IsNil(index) {
 			nilCount += 1
@@ -387,6 +390,7 @@ func (r *recordIter) setBoolColumnMeta(timeColVals *record.ColVal, idx int, rec 
 			maxIndex = index
 		}
 		lastIndex = colIndex
+		lastRow = index
 		lastTime = timeCol
 	}
 
@@ -395,7 +399,7 @@ func (r *recordIter) setBoolColumnMeta(timeColVals *record.ColVal, idx int, rec 
 	rec.ColMeta[idx].SetMax(maxV, maxVTime)
 	rec.ColMeta[idx].SetCount(countV)
 
-	setColValInAux(timeColVals, idx, ops, rec, minIndex, firstIndex, maxIndex, lastIndex)
+	setColValInAux(timeColVals, idx, ops, rec, minIndex, firstIndex, maxIndex, lastRow)
 }
 
 func (r *recordIter) setFloatColumnMeta(timeColVals *record.ColVal, idx int, rec *record.Record, ops []*comm.CallOption) {
@@ -420,6 +424,7 @@ func (r *recordIter) setFloatColumnMeta(timeColVals *record.ColVal, idx int, rec
 	countV = 0
 	firstInit := false
 	var lastTime int64 // time of the last row that has a value in this column
+	lastRow := -1      // and its row (lastIndex counts values, the auxiliary columns are read by row)
 	for index, timeCol := range timeCols {
 		if colVals.IsNil(index) {
 			nilCount += 1
@@ -452,6 +457,7 @@ func (r *recordIter) setFloatColumnMeta(timeColVals *record.ColVal, idx int, rec
 
 		sumV += cols[index-nilCount]
 		lastIndex = colIndex
+		lastRow = index
 		lastTime = timeCol
 	}
 
@@ -461,7 +467,7 @@ func (r *recordIter) setFloatColumnMeta(timeColVals *record.ColVal, idx int, rec
 	rec.ColMeta[idx].SetCount(countV)
 	rec.ColMeta[idx].SetSum(sumV)
 
-	setColValInAux(timeColVals, idx, ops, rec, minIndex, firstIndex, maxIndex, lastIndex)
+	setColValInAux(timeColVals, idx, ops, rec, minIndex, firstIndex, maxIndex, lastRow)
 }
 
 func (r *recordIter) setStringColumnMeta(timeColVals *record.ColVal, idx int, rec *record.Record, ops []*comm.CallOption) {
@@ -483,6 +489,7 @@ func (r *recordIter) setStringColumnMeta(timeColVals *record.ColVal, idx int, re
 	var countV int64
 	countV = 0
 	var lastTime int64 // time of the last row that has a value in this column
+	lastRow := -1      // and its row (lastIndex counts values, the auxiliary columns are read by row)
 	for index, timeCol := range timeCols {
 		if colVals.IsNil(index) {
 			nilCount += 1
@@ -496,12 +503,13 @@ func (r *recordIter) setStringColumnMeta(timeColVals *record.ColVal, idx int, re
 		}
 
 		lastIndex = colIndex
+		lastRow = index
 		lastTime = timeCol
 	}
 
 	rec.ColMeta[idx].SetLast(cols[lastIndex], lastTime)
 	rec.ColMeta[idx].SetCount(countV)
-	setColValInAux(timeColVals, idx, ops, rec, -1, firstIndex, -1, lastIndex)
+	setColValInAux(timeColVals, idx, ops, rec, -1, firstIndex, -1, lastRow)
 }
 
 // mergeData is used for merge two record iter data(eg, mem table and immutable or order and out order in immutable)
@@ -587,6 +595,14 @@ func setSchemaColVal(field *record.Field, col *record.ColVal, rowIndex int) {
 
 func setColValInAux(timeColVals *record.ColVal, idx int, ops []*comm.CallOption, rec *record.Record, minIndex, firstIndex, maxIndex, lastIndex int) {
 	if rec.Schema.Len() > 2 && len(ops) == 1 {
+		_, firstVtime := rec.ColMeta[idx].First()
+		_, lastVtime := rec.ColMeta[idx].Last()
+		// the rows of a descending scan arrive newest first: the first value in time is the one
+		// scanned last (readMemTableMetaRecord exchanges the two statistics afterwards)
+		if n := rec.RowNums(); n > 1 && rec.Time(0) > rec.Time(n-1) {
+			firstIndex, lastIndex = lastIndex, firstIndex
+			firstVtime, lastVtime = lastVtime, firstVtime
+		}
 		for i := range rec.Schema[:len(rec.Schema)-1] {
 			field := &rec.Schema[i]
 			col := rec.Column(i)
@@ -602,11 +618,9 @@ func setColValInAux(timeColVals *record.ColVal, idx int, ops []*comm.CallOption,
 				timeColVals.AppendInteger(maxVTime)
 			case "first":
 				setSchemaColVal(field, col, firstIndex)
-				_, firstVtime := rec.ColMeta[idx].First()
 				timeColVals.AppendInteger(firstVtime)
 			case "last":
 				setSchemaColVal(field, col, lastIndex)
-				_, lastVtime := rec.ColMeta[idx].Last()
 				timeColVals.AppendInteger(lastVtime)
 			}
 		}
